@@ -57,6 +57,7 @@ func runC20(c *Ctx) {
 	c.assume("defers run at function exit in LIFO order (go/ssa rundefers)")
 	ruleNilNilDeref(c, "R20.p")
 	ruleArgumentIndexSafety(c, "R20.p")
+	ruleSpanSlotOwner(c, "R20.q")
 	loops := c.P.connLoops()
 	c.count("conn-loops", len(loops))
 	c.floor("conn-loops", 1)
@@ -442,4 +443,78 @@ func exitClass(c *Ctx, cl *ConnLoop, r *ssa.Return) string {
 	}
 	sort.Strings(parts)
 	return strings.Join(parts, ",")
+}
+
+// ruleSpanSlotOwner: the connection's span slot (Conn.Context, the stack the open spans live
+// on) belongs to the goroutine serving the connection. If the lifecycle API (Stop closing the
+// registered connections from another goroutine) replaces it, the serving goroutine finishes
+// its open spans on a different stack: the real parse/root spans are left open or finished in
+// the wrong order.
+func ruleSpanSlotOwner(c *Ctx, rid string) {
+	c.rule(rid, "Conn.Context is stored only by the constructor and SetSpanContext; no function reachable from the lifecycle/registry API (Start, Stop, Restart, Conns, ConnByUUID — including Conn.Close through ConnManager.Close) without crossing a go statement stores to it or calls SetSpanContext")
+	storesCtx := func(fn *ssa.Function) (found bool, at ssa.Instruction) {
+		allInstrs(fn, func(ins ssa.Instruction) {
+			if st, ok := ins.(*ssa.Store); ok {
+				if owner, f, _, ok := fieldOf(st.Addr); ok && owner == "redis.Conn" && f == "Context" {
+					found, at = true, ins
+				}
+			}
+			if cc := callCommon(ins); cc != nil && calleeName(cc) == "(*"+pkgRedis+".Conn).SetSpanContext" {
+				found, at = true, ins
+			}
+		})
+		return
+	}
+	n, bad := 0, 0
+	for _, fn := range c.P.RepoFuncs(pkgRedis) {
+		if !inProd(fn) {
+			continue
+		}
+		direct := false
+		var at ssa.Instruction
+		allInstrs(fn, func(ins ssa.Instruction) {
+			if st, ok := ins.(*ssa.Store); ok {
+				if owner, f, _, ok := fieldOf(st.Addr); ok && owner == "redis.Conn" && f == "Context" {
+					direct, at = true, ins
+				}
+			}
+		})
+		if !direct {
+			continue
+		}
+		n++
+		c.analysed(fn)
+		if fn.Name() == "SetSpanContext" {
+			continue
+		}
+		if _, _, base, ok := fieldOf(at.(*ssa.Store).Addr); ok {
+			if _, fresh := strip(base).(*ssa.Alloc); fresh {
+				continue // initialising a connection it has just allocated
+			}
+		}
+		bad++
+		c.bad(rid, fnName(fn)+"/stores-span-slot", c.P.instrPos(at), "Conn.Context is replaced outside the constructor and SetSpanContext: spans opened on the old context can no longer be finished through the connection")
+	}
+	c.count("span-slot-writers", n)
+	c.floor("span-slot-writers", 2)
+	m := &syncModel{p: c.P}
+	nf := 0
+	for _, r := range concurrencyRoots(c.P) {
+		if r.Goroutine {
+			continue
+		}
+		for fn := range m.reachFrom(r) {
+			nf++
+			if fn.Name() == "newConnWith" {
+				continue
+			}
+			if found, at := storesCtx(fn); found {
+				bad++
+				c.bad(rid, fmt.Sprintf("%s/span-slot-from:%s", fnName(fn), r.Name), c.P.instrPos(at), "the span slot of a registered connection is replaced from "+r.Name+" (another goroutine than the one serving the connection): open spans are finished on the wrong context")
+			}
+		}
+	}
+	if bad == 0 {
+		c.ok(rid, "span-slot-owned-by-loop", "", fmt.Sprintf("%d writers (constructor, SetSpanContext); %d functions reachable from the lifecycle API, none touches the slot", n, nf))
+	}
 }
